@@ -20,8 +20,8 @@ from . import base
 from .c02 import MASKS
 
 ID = "C19"
-QUICK_RUNS = 4000
-THOROUGH_RUNS = 250000
+QUICK_RUNS = 10000
+THOROUGH_RUNS = 400000
 LEVEL = "exploration"
 RULE = ("one run = 1-3 start/stop cycles of one ThreadedWriter around a destination with a drawn failure mask; per "
         "cycle 1-3 producer threads log 1-6 messages each while the main thread issues stopService after a drawn "
